@@ -848,7 +848,7 @@ func c12EmitGame(c *ctx, g *c12Game, sample bool) {
 	if g.bom {
 		text = append([]byte("\xef\xbb\xbf"), text...)
 	}
-	qs := c12Queries(c.r, g.ops, 24+16*b2i(!c.quick()))
+	qs := c12Queries(c.r, g.ops, 20+20*b2i(!c.quick()))
 	o := c12Run(text, qs)
 	input := fmt.Sprintf("G ; %s ; %s ; %s", c12EncStruct(g.tags, g.ops), hex.EncodeToString(text), c12QueryStr(qs))
 	c.stat("cases", 1)
@@ -952,7 +952,7 @@ func runC12(c *ctx) {
 	for _, v := range []string{"9", "2", "0", "-1", "12", "255", "256", "4294967299"} {
 		c12EmitText(c, []byte("[Size \""+v+"\"]\n\n1. a1 b1\n"), "size-tag", true, qs)
 	}
-	games := 1500 * c.scale
+	games := 1000 * c.scale
 	for i := 0; i < games; i++ {
 		g := c12GenGame(c)
 		c12EmitGame(c, g, i < 4)
